@@ -443,4 +443,40 @@ theorem sendLogon_plain (s : Sess) :
   cases hp : s.cfg.persist <;> cases ho : s.out <;>
     simp [Sess.setToSend, Sess.emit, hp, ho, reply, logonMsg_kind]
 
+
+/-! ### sending does not touch the expected inbound number -/
+
+theorem persistOut_target (s : Sess) (n : Int) (m : OutMsg) : (s.persistOut n m).store.target = s.store.target := by
+  unfold Sess.persistOut; split <;> rfl
+
+theorem sendQueued_store (s : Sess) : (sendQueued s).store = s.store := by
+  unfold sendQueued; split <;> rfl
+
+theorem prep_target (s : Sess) (m : OutMsg) (h : resetLogon m = false) : (prep s m).2.store.target = s.store.target := by
+  unfold prep
+  simp only []
+  split
+  · split
+    · rename_i hc; unfold resetLogon at h; rw [h] at hc; cases hc
+    · exact persistOut_target _ _ _
+  · split
+    · rfl
+    · exact persistOut_target _ _ _
+
+theorem sendInReplyTo_target (s : Sess) (m : OutMsg) (h : resetLogon m = false) : (sendInReplyTo s m).store.target = s.store.target := by
+  have hp := prep_target s m h
+  unfold sendInReplyTo queueForSend
+  generalize prep s m = r at hp
+  obtain ⟨o, s'⟩ := r
+  cases o with
+  | none => split <;> exact hp
+  | some m' =>
+    split
+    · exact hp
+    · show (sendQueued _).store.target = _
+      rw [sendQueued_store]; exact hp
+
+theorem doReject_target (s : Sess) (m : InMsg) (r : Nat) (t : Option Nat) (b : Bool) : (doReject s m r t b).store.target = s.store.target :=
+  sendInReplyTo_target s _ (resetLogon_rejectMsg _ _ _ _ _)
+
 end Qfx.Sess
